@@ -3,8 +3,370 @@ From Coq Require Import Lia.
 From AGH Require Import Base.Run Model.ClientIndex Model.LogPolicy.
 Local Open Scope N_scope.
 
+(** * The mask *)
+(** [low_zero n b]: the last [n] bytes of [b] are zero. *)
+Definition low_zero (n : nat) (b : bytes) : Prop := exists pre, b = pre ++ repeat 0 n.
+
+(** 16 bits of an IPv4 address (also when it is embedded in IPv6), 80 bits of
+    an IPv6 address. *)
+Definition masked (b : bytes) : Prop :=
+  (length b = 4%nat -> low_zero 2 b) /\
+  (length b = 16%nat -> if is_4in6 b then low_zero 2 b else low_zero 10 b).
+
+Ltac explode ip :=
+  repeat (let x := fresh "b" in destruct ip as [|x ip]; cbn [length] in *; try lia; try discriminate).
+
+Lemma anonymize_length ip : length (anonymize ip) = length ip.
+Proof.
+  unfold anonymize, zero_tail.
+  destruct (Nat.eqb (length ip) 4) eqn:E4.
+  - apply Nat.eqb_eq in E4. rewrite app_length, firstn_length, repeat_length. lia.
+  - destruct (Nat.eqb (length ip) 16) eqn:E16; [|reflexivity].
+    apply Nat.eqb_eq in E16. destruct (is_4in6 ip); rewrite app_length, firstn_length, repeat_length; lia.
+Qed.
+
+Lemma anonymize_v4 ip : length ip = 4%nat ->
+  exists a b c d, ip = [a; b; c; d] /\ anonymize ip = [a; b; 0; 0].
+Proof.
+  intros H. destruct ip as [|a [|b [|c [|d [|e ip]]]]]; try discriminate.
+  exists a, b, c, d. split; reflexivity.
+Qed.
+
+Lemma anonymize_v6 ip : length ip = 16%nat -> is_4in6 ip = false ->
+  anonymize ip = firstn 6 ip ++ repeat 0 10.
+Proof.
+  intros H H4. unfold anonymize. rewrite H4.
+  replace (Nat.eqb (length ip) 4) with false by (rewrite H; reflexivity).
+  replace (Nat.eqb (length ip) 16) with true by (rewrite H; reflexivity).
+  unfold zero_tail. rewrite H. reflexivity.
+Qed.
+
+Lemma anonymize_4in6 ip : is_4in6 ip = true ->
+  anonymize ip = firstn 14 ip ++ [0; 0].
+Proof.
+  intros H4. unfold anonymize. rewrite H4.
+  unfold is_4in6 in H4. apply andb_true_iff in H4. destruct H4 as [HL _]. apply Nat.eqb_eq in HL.
+  replace (Nat.eqb (length ip) 4) with false by (rewrite HL; reflexivity).
+  replace (Nat.eqb (length ip) 16) with true by (rewrite HL; reflexivity).
+  unfold zero_tail. rewrite HL. reflexivity.
+Qed.
+
+Lemma anonymize_masked ip : masked (anonymize ip).
+Proof.
+  split; intros HL; rewrite anonymize_length in HL.
+  - destruct (anonymize_v4 ip HL) as (a & b & c & d & -> & ->). exists [a; b]. reflexivity.
+  - destruct (is_4in6 ip) eqn:E4.
+    + rewrite (anonymize_4in6 ip E4).
+      assert (E : is_4in6 (firstn 14 ip ++ [0; 0]) = true).
+      { unfold is_4in6 in *. apply andb_true_iff in E4. destruct E4 as [_ E12].
+        explode ip. cbn in *. exact E12. }
+      rewrite E. exists (firstn 14 ip). reflexivity.
+    + rewrite (anonymize_v6 ip HL E4).
+      assert (E : is_4in6 (firstn 6 ip ++ repeat 0 10) = false).
+      { explode ip. unfold is_4in6. cbn.
+        repeat (match goal with |- context [N.eqb ?x ?y] => destruct (N.eqb x y); cbn end); reflexivity. }
+      rewrite E. exists (firstn 6 ip). reflexivity.
+Qed.
+
+Lemma anonymize_idempotent ip : anonymize (anonymize ip) = anonymize ip.
+Proof.
+  destruct (Nat.eqb (length ip) 4) eqn:E4.
+  - apply Nat.eqb_eq in E4. destruct (anonymize_v4 ip E4) as (a & b & c & d & -> & ->). reflexivity.
+  - destruct (Nat.eqb (length ip) 16) eqn:E16.
+    + apply Nat.eqb_eq in E16. destruct (is_4in6 ip) eqn:E.
+      * rewrite (anonymize_4in6 ip E). unfold is_4in6 in E. apply andb_true_iff in E. destruct E as [_ E12].
+        explode ip. cbn in E12 |- *. unfold anonymize, is_4in6. cbn. rewrite E12. reflexivity.
+      * rewrite (anonymize_v6 ip E16 E). explode ip. unfold anonymize, is_4in6. cbn.
+        repeat (match goal with |- context [N.eqb ?x ?y] => destruct (N.eqb x y); cbn end); reflexivity.
+    + unfold anonymize. rewrite E4, E16, E4, E16. reflexivity.
+Qed.
+
+(** * One query *)
 Lemma ignored_name_not_logged ev q st :
   e_qign ev (normalize (q_name q)) = true -> st_mem (process ev q st) = st_mem st.
 Proof.
   intros H. unfold process, should_log; cbn [st_mem]. rewrite H. cbn. rewrite andb_false_r. reflexivity.
 Qed.
+
+Lemma ignored_name_not_counted ev q st :
+  e_sign ev (normalize (q_name q)) = true -> st_stats (process ev q st) = st_stats st.
+Proof.
+  intros H. unfold process, should_count; cbn [st_stats]. rewrite H. cbn. rewrite andb_false_r. reflexivity.
+Qed.
+
+(** The client decision is made on [ids_of q]: the REAL address (and the
+    ClientID), whatever the anonymisation setting. *)
+Lemma ignored_client_not_logged ev q st :
+  qlog_client_ignored (e_ix ev) (e_dhcp ev) (ids_of q) = true -> st_mem (process ev q st) = st_mem st.
+Proof.
+  intros H. unfold process, should_log; cbn [st_mem]. rewrite H. cbn. rewrite andb_false_r. reflexivity.
+Qed.
+
+Lemma ignored_client_not_counted ev q st :
+  stats_client_counted (e_ix ev) (e_dhcp ev) (ids_of q) = false -> st_stats (process ev q st) = st_stats st.
+Proof. intros H. unfold process, should_count; cbn [st_stats]. rewrite H. reflexivity. Qed.
+
+Lemma process_file ev q st : st_file (process ev q st) = st_file st.
+Proof. reflexivity. Qed.
+
+(** * Histories: queries under arbitrary (changing) configurations and
+    registries, interleaved with flushes *)
+Inductive lev :=
+  | LQuery (ev : env) (q : query)
+  | LFlush.
+
+Definition apply_ev (st : store) (e : lev) : store :=
+  match e with
+  | LQuery ev q => process ev q st
+  | LFlush => flush st
+  end.
+
+Definition run_log (evs : list lev) : store := fold_left apply_ev evs empty_store.
+Definition all_log (st : store) : list lentry := st_file st ++ st_mem st.
+
+Fixpoint logged (evs : list lev) : list lentry :=
+  match evs with
+  | [] => []
+  | LQuery ev q :: r => (if should_log ev q then [log_entry ev q] else []) ++ logged r
+  | LFlush :: r => logged r
+  end.
+Fixpoint counted (evs : list lev) : list sentry :=
+  match evs with
+  | [] => []
+  | LQuery ev q :: r => (if should_count ev q then [stat_entry ev q] else []) ++ counted r
+  | LFlush :: r => counted r
+  end.
+
+Lemma all_log_fold evs : forall st,
+  all_log (fold_left apply_ev evs st) = all_log st ++ logged evs /\
+  st_stats (fold_left apply_ev evs st) = st_stats st ++ counted evs.
+Proof.
+  induction evs as [|e evs IH]; intros st; cbn [fold_left logged counted].
+  - rewrite !app_nil_r. auto.
+  - destruct (IH (apply_ev st e)) as [IH1 IH2]. rewrite IH1, IH2. destruct e as [ev q|]; cbn [apply_ev].
+    + unfold all_log, process; cbn [st_file st_mem st_stats].
+      destruct (should_log ev q), (should_count ev q); cbn [app]; rewrite <- ?app_assoc, ?app_nil_r; auto.
+    + unfold all_log, flush; cbn [st_file st_mem st_stats]. rewrite app_nil_r. auto.
+Qed.
+
+(** Everything the log holds (memory or file) / the statistics were updated
+    with is exactly the records of the queries that passed the tests, in order. *)
+Lemma run_log_exact evs :
+  all_log (run_log evs) = logged evs /\ st_stats (run_log evs) = counted evs.
+Proof. unfold run_log. destruct (all_log_fold evs empty_store) as [H1 H2]. rewrite H1, H2. auto. Qed.
+
+Lemma logged_in evs e : In e (logged evs) ->
+  exists ev q, In (LQuery ev q) evs /\ should_log ev q = true /\ e = log_entry ev q.
+Proof.
+  induction evs as [|[ev q|] evs IH]; cbn [logged]; [intros []| |].
+  - intros H. apply in_app_or in H. destruct H as [H|H].
+    + destruct (should_log ev q) eqn:E; [|destruct H]. destruct H as [<-|[]]. exists ev, q. cbn; auto.
+    + destruct (IH H) as (ev' & q' & Hin & Hs & He). exists ev', q'. cbn; auto.
+  - intros H. destruct (IH H) as (ev' & q' & Hin & Hs & He). exists ev', q'. cbn; auto.
+Qed.
+
+Lemma counted_in evs e : In e (counted evs) ->
+  exists ev q, In (LQuery ev q) evs /\ should_count ev q = true /\ e = stat_entry ev q.
+Proof.
+  induction evs as [|[ev q|] evs IH]; cbn [counted]; [intros []| |].
+  - intros H. apply in_app_or in H. destruct H as [H|H].
+    + destruct (should_count ev q) eqn:E; [|destruct H]. destruct H as [<-|[]]. exists ev, q. cbn; auto.
+    + destruct (IH H) as (ev' & q' & Hin & Hs & He). exists ev', q'. cbn; auto.
+  - intros H. destruct (IH H) as (ev' & q' & Hin & Hs & He). exists ev', q'. cbn; auto.
+Qed.
+
+Lemma should_log_true ev q : should_log ev q = true ->
+  e_qign ev (normalize (q_name q)) = false /\
+  qlog_client_ignored (e_ix ev) (e_dhcp ev) (ids_of q) = false /\
+  (q_any q = true -> e_refuse_any ev = false).
+Proof.
+  unfold should_log. rewrite !andb_true_iff, !negb_true_iff. intros [[H1 H2] H3].
+  repeat split; auto. intros Ha. rewrite Ha in H1. exact H1.
+Qed.
+
+Lemma should_count_true ev q : should_count ev q = true ->
+  e_sign ev (normalize (q_name q)) = false /\
+  stats_client_counted (e_ix ev) (e_dhcp ev) (ids_of q) = true.
+Proof. unfold should_count. rewrite andb_true_iff, negb_true_iff. tauto. Qed.
+
+(** Every record held by the query log, in memory or on disk, after ANY
+    history: it stems from a query whose normalised name the ignore list in
+    force did not match, whose client (found by ClientID / real address) was
+    not marked, and with anonymisation on it carries the masked address. *)
+Theorem log_records_ok evs e :
+  In e (all_log (run_log evs)) ->
+  exists ev q, In (LQuery ev q) evs /\ e = log_entry ev q /\
+    e_qign ev (fst (fst e)) = false /\
+    qlog_client_ignored (e_ix ev) (e_dhcp ev) (ids_of q) = false /\
+    (e_anon ev = true -> snd (fst e) = anonymize (fst (q_addr q)) /\ masked (snd (fst e))).
+Proof.
+  destruct (run_log_exact evs) as [-> _]. intros H.
+  destruct (logged_in evs e H) as (ev & q & Hin & Hs & ->).
+  destruct (should_log_true ev q Hs) as (H1 & H2 & _).
+  exists ev, q. split; [assumption|]. split; [reflexivity|]. split; [exact H1|]. split; [exact H2|].
+  unfold log_entry, recorded_ip; cbn [fst snd]. intros ->. split; [reflexivity|apply anonymize_masked].
+Qed.
+
+Theorem stat_records_ok evs s :
+  In s (st_stats (run_log evs)) ->
+  exists ev q, In (LQuery ev q) evs /\ s = stat_entry ev q /\
+    e_sign ev (fst (fst s)) = false /\
+    stats_client_counted (e_ix ev) (e_dhcp ev) (ids_of q) = true /\
+    (e_anon ev = true -> snd s = [] \/ (snd s = anonymize (fst (q_addr q)) /\ masked (snd s))).
+Proof.
+  destruct (run_log_exact evs) as [_ ->]. intros H.
+  destruct (counted_in evs s H) as (ev & q & Hin & Hs & ->).
+  destruct (should_count_true ev q Hs) as (H1 & H2).
+  exists ev, q. split; [assumption|]. split; [reflexivity|].
+  split; [unfold stat_entry; destruct (q_cid q); exact H1|]. split; [exact H2|].
+  unfold stat_entry, recorded_ip. destruct (q_cid q); cbn [fst snd]; [|auto].
+  intros ->. right. split; [reflexivity|apply anonymize_masked].
+Qed.
+
+(** * The search / report side *)
+Theorem search_results_ok ev mac_of st e :
+  In e (search_report ev mac_of st) ->
+  exists e0, In e0 (all_log st) /\ e = reported ev e0 /\
+    e_qign ev (fst (fst e)) = false /\
+    qlog_client_ignored (e_ix ev) (e_dhcp ev) (stored_ids mac_of e0) = false /\
+    (e_anon ev = true -> masked (snd (fst e))).
+Proof.
+  unfold search_report, search. intros H. apply in_map_iff in H. destruct H as (e0 & <- & H).
+  apply filter_In in H. destruct H as [Hin Hv].
+  unfold visible in Hv. apply andb_true_iff in Hv. destruct Hv as [H1 H2]. apply negb_true_iff in H1, H2.
+  exists e0. split.
+  - unfold all_log. apply in_app_or in Hin. apply in_or_app. destruct Hin as [Hin|Hin]; apply in_rev in Hin; auto.
+  - destruct e0 as [[n ip] c]. unfold reported; cbn [fst snd] in *.
+    split; [reflexivity|]. split; [exact H1|]. split; [exact H2|].
+    intros ->. apply anonymize_masked.
+Qed.
+
+Theorem stats_report_ok ev mac_of st :
+  (forall d, In d (stats_domains ev st) -> e_sign ev d = false) /\
+  (forall s, In s (stats_clients ev mac_of st) ->
+     In s (st_stats st) /\ stats_client_counted (e_ix ev) (e_dhcp ev) [stat_key_id mac_of s] = true).
+Proof.
+  split.
+  - intros d H. unfold stats_domains in H. apply in_map_iff in H. destruct H as (s & <- & H).
+    apply filter_In in H. destruct H as [_ H]. unfold stat_domain_visible in H. apply negb_true_iff in H. exact H.
+  - intros s H. unfold stats_clients in H. apply filter_In in H. exact H.
+Qed.
+
+(** * Relation to the request precedence of C04 *)
+(** FULL statement: a request that the precedence of C04 ([acf_find]: ClientID,
+    exact address, longest containing prefix, lease MAC) attributes to a
+    client marked to be ignored is not recorded. *)
+Definition ignored_client_never_stored_statement : Prop :=
+  forall ev q st u c,
+    find_by_cid (e_ix ev) [] = None ->          (* nobody lists the empty ClientID (SetIDs rejects it) *)
+    acf_find (e_ix ev) (e_dhcp ev) (q_cid q) (q_addr q) = Some u -> deref (e_ix ev) u = Some c ->
+    (c_ignore_qlog c = true -> st_mem (process ev q st) = st_mem st) /\
+    (c_ignore_stats c = true -> st_stats (process ev q st) = st_stats st).
+
+(** The hypothesis under which it holds: the ClientID is not also the spelling
+    of a stored MAC address (the finders of home/clients.go go through
+    index.find, which reads "aa-bb-cc-dd-ee-ff" as a MAC). *)
+Definition clientid_not_a_stored_mac (ix : index) (q : query) : Prop :=
+  forall m, q_cid_mac q = Some m -> find_by_mac ix m = None.
+
+Lemma first_client_here f ix i rest u c :
+  f i = Some u -> deref ix u = Some c -> first_client f ix (i :: rest) = Some c.
+Proof. intros H1 H2. cbn. rewrite H1, H2. reflexivity. Qed.
+Lemma first_client_skip f ix i rest : f i = None -> first_client f ix (i :: rest) = first_client f ix rest.
+Proof. intros H. cbn. rewrite H. reflexivity. Qed.
+
+Lemma precedence_client_found ev q u c :
+  find_by_cid (e_ix ev) [] = None ->
+  clientid_not_a_stored_mac (e_ix ev) q ->
+  acf_find (e_ix ev) (e_dhcp ev) (q_cid q) (q_addr q) = Some u -> deref (e_ix ev) u = Some c ->
+  first_client (find_loose (e_ix ev) (e_dhcp ev)) (e_ix ev) (ids_of q) = Some c /\
+  first_client (find_strict (e_ix ev) (e_dhcp ev)) (e_ix ev) (ids_of q) = Some c.
+Proof.
+  intros Hemp Hmac Hacf Hd. unfold acf_find in Hacf. unfold ids_of.
+  set (ix := e_ix ev) in *. set (dh := e_dhcp ev) in *.
+  assert (Haddr : find_by_cid ix (q_cid q) = None ->
+          find_loose ix dh (IdAddr (q_addr q)) = Some u /\ find_strict ix dh (IdAddr (q_addr q)) = Some u).
+  { intros Hc. rewrite Hc in Hacf. cbn [find_loose find_strict].
+    destruct (find_by_ip ix (q_addr q)) as [u'|]; [inversion Hacf; auto|].
+    destruct (dh (q_addr q)) as [m|]; [|discriminate].
+    rewrite Hacf. auto. }
+  destruct (q_cid q) as [|b cid] eqn:Ec.
+  - destruct (Haddr Hemp) as [H1 H2]. split; eapply first_client_here; eauto.
+  - destruct (find_by_cid ix (b :: cid)) as [u'|] eqn:Hc.
+    + inversion Hacf; subst u'.
+      assert (Hf : find ix (b :: cid) None (q_cid_mac q) = Some u) by (unfold find; rewrite Hc; reflexivity).
+      split; eapply first_client_here; eauto.
+    + assert (Hf : find ix (b :: cid) None (q_cid_mac q) = None).
+      { unfold find. rewrite Hc. destruct (q_cid_mac q) as [m|] eqn:Em; cbn; [exact (Hmac m Em)|reflexivity]. }
+      destruct (Haddr eq_refl) as [H1 H2].
+      split; (rewrite first_client_skip by exact Hf); eapply first_client_here; eauto.
+Qed.
+
+Theorem ignored_client_never_stored_partial : forall ev q st u c,
+  find_by_cid (e_ix ev) [] = None ->
+  clientid_not_a_stored_mac (e_ix ev) q ->
+  acf_find (e_ix ev) (e_dhcp ev) (q_cid q) (q_addr q) = Some u -> deref (e_ix ev) u = Some c ->
+  (c_ignore_qlog c = true -> st_mem (process ev q st) = st_mem st) /\
+  (c_ignore_stats c = true -> st_stats (process ev q st) = st_stats st).
+Proof.
+  intros ev q st u c Hemp Hmac Hacf Hd.
+  destruct (precedence_client_found ev q u c Hemp Hmac Hacf Hd) as [H1 H2]. split; intros Hf.
+  - apply ignored_client_not_logged. unfold qlog_client_ignored. rewrite H1. exact Hf.
+  - apply ignored_client_not_counted. unfold stats_client_counted. rewrite H2, Hf. reflexivity.
+Qed.
+
+(** The witness against the full statement (KNOWN FINDING
+    C08-maclike-clientid-resolved-as-mac): client b = 192.168.1.0/24 with both
+    ignore flags, client a = MAC aa:bb:cc:dd:ee:01 without; a request from
+    192.168.1.5 with ClientID "aa-bb-cc-dd-ee-01". *)
+Definition wit_client (u : uid) name ips subnets macs (iq is_ : bool) : client :=
+  {| c_uid := u; c_name := name; c_cids := []; c_ips := ips; c_subnets := subnets; c_macs := macs;
+     c_own_settings := false; c_filtering := false; c_safesearch := false; c_safebrowsing := false;
+     c_parental := false; c_own_blocked := false; c_blocked := None;
+     c_ignore_qlog := iq; c_ignore_stats := is_ |}.
+Definition wit_mac : bytes := [170;187;204;221;238;1].
+Definition wit_cid : bytes := [97;97;45;98;98;45;99;99;45;100;100;45;101;101;45;48;49].
+Definition wit_ix : index :=
+  run [OAdd (wit_client 1 [98] [] [([192;168;1;0], 24)] [] true true);
+       OAdd (wit_client 2 [97] [] [] [wit_mac] false false)] empty_index.
+Definition wit_env (anon : bool) : env :=
+  {| e_ix := wit_ix; e_dhcp := fun _ => None; e_anon := anon; e_refuse_any := false;
+     e_qign := fun _ => false; e_sign := fun _ => false |}.
+Definition wit_query (cid : bytes) (mac : option bytes) : query :=
+  {| q_name := [111;107;46]; q_any := false; q_addr := ([192;168;1;5], []); q_cid := cid; q_cid_mac := mac |}.
+
+Theorem ignored_client_never_stored_refuted : ~ ignored_client_never_stored_statement.
+Proof.
+  intros H.
+  destruct (H (wit_env true) (wit_query wit_cid (Some wit_mac)) empty_store 1
+              (wit_client 1 [98] [] [([192;168;1;0], 24)] [] true true)) as [H1 _];
+    try (vm_compute; reflexivity).
+  specialize (H1 eq_refl). vm_compute in H1. discriminate.
+Qed.
+
+(** Non-vacuity of the partial theorem, for both anonymisation settings: the
+    same request without the MAC-like ClientID is recorded nowhere (this is the
+    case the repaired defect #9 got wrong with anonymisation on); a request
+    from outside the prefix is recorded with the masked address. *)
+Lemma partial_premises_satisfiable :
+  find_by_cid wit_ix [] = None /\
+  clientid_not_a_stored_mac wit_ix (wit_query [] None) /\
+  acf_find wit_ix (fun _ => None) [] ([192;168;1;5], []) = Some 1 /\
+  process (wit_env true) (wit_query [] None) empty_store = empty_store /\
+  process (wit_env false) (wit_query [] None) empty_store = empty_store /\
+  all_log (process (wit_env true)
+             {| q_name := [79;75;46]; q_any := false; q_addr := ([10;1;2;3], []); q_cid := []; q_cid_mac := None |}
+             empty_store) = [([111;107], [10;1;0;0], [])].
+Proof. repeat split; try (vm_compute; reflexivity). intros m H; discriminate. Qed.
+
+(** The reading of defect #9 (ids built from the anonymised address) is not
+    the property: it would record the ignored client. *)
+Definition ids_of_anonymised (ev : env) (q : query) : list id :=
+  [IdAddr (recorded_ip ev q, [])].
+Lemma anonymised_ids_reading_refuted :
+  qlog_client_ignored wit_ix (fun _ => None) (ids_of_anonymised (wit_env true) (wit_query [] None)) = false /\
+  qlog_client_ignored wit_ix (fun _ => None) (ids_of (wit_query [] None)) = true.
+Proof. split; vm_compute; reflexivity. Qed.
+
+Lemma addresses_masked ip : masked (anonymize ip) /\ length (anonymize ip) = length ip.
+Proof. split; [exact (anonymize_masked ip)|exact (anonymize_length ip)]. Qed.
